@@ -130,6 +130,27 @@ func semanticMutant(r *rand.Rand, g *gram.Grammar) *mutant {
 		toks[refs[r.Intn(len(refs))]].Text = "Zq9Undefined"
 		return &mutant{toks: toks, kind: "undef-prod", mustReject: true, why: "uses an undefined syntax production"}
 	case 1: // undefined regular definition (anywhere, also inside a regular definition no token uses)
+		if r.Intn(2) == 0 {
+			// a new regular definition that nothing uses, with the undefined reference in one of
+			// the places a scan of its body could stop short of
+			ch := func(c string) gram.FTok { return gram.FTok{Text: "'" + c + "'", Type: "char_lit"} }
+			p := func(s string) gram.FTok { return gram.FTok{Text: s, Type: s} }
+			undef := gram.FTok{Text: "_zq9undefined", Type: "regDefId"}
+			shapes := [][]gram.FTok{
+				{p("("), ch("a"), p(")"), undef},
+				{p("["), ch("a"), p("]"), ch("b"), undef},
+				{p("{"), ch("a"), p("}"), undef, ch("c")},
+				{ch("a"), p("|"), p("("), ch("b"), p(")"), p("|"), undef},
+				{p("("), ch("a"), p("|"), undef, p(")")},
+				{p("{"), p("["), undef, p("]"), p("}")},
+				{ch("a"), p("-"), ch("c"), undef},
+				{ch("a"), p("|"), ch("b"), p("|"), ch("c"), undef},
+				{p("."), p("("), ch("a"), p(")"), p("["), ch("b"), p("]"), undef},
+			}
+			def := append([]gram.FTok{{Text: "_zq_unused", Type: "regDefId"}, p(":")}, shapes[r.Intn(len(shapes))]...)
+			def = append(def, p(";"))
+			return &mutant{toks: append(def, toks...), kind: "undef-regdef", mustReject: true, why: "uses an undefined regular definition"}
+		}
 		var refs []int
 		for i, t := range toks {
 			if t.Type == "regDefId" && !(i+1 < len(toks) && toks[i+1].Type == ":") {
